@@ -2,7 +2,7 @@
 # try_seed.sh <patch.diff> <check id>... : applies a seeded change to /repo, runs the quick checks, restores /repo (always)
 P=$1; shift
 trap 'git -C /repo checkout -- . ; git -C /repo clean -fdq' EXIT
-git -C /repo apply "$P" || exit 2
+git -C /repo apply "$(realpath "$P")" || exit 2
 for c in "$@"; do
   out=$(timeout 1500 /verif/bin/check $c quick 2>&1)
   echo "== $c: $(echo "$out" | grep -c '^VIOLATION') violation line(s); $(echo "$out" | grep '^VIOLATION' | head -2 | cut -c1-140 | tr '\n' ' ')"
